@@ -229,6 +229,39 @@ func execA(c caseA) (st stats, err error) {
 				return nil
 			}
 			return push(k, entry{ID: r.Header.Get("x-amz-version-id"), Body: src[0].Body, Meta: src[0].Meta}, where)
+		case "copyver":
+			// a copy that names the version to copy: retrievable by id means copyable by id too
+			si := o.Src % len(keyNames)
+			src := stacks[si]
+			if len(src) == 0 || status == "" {
+				return nil
+			}
+			e := src[((o.Ver%len(src))+len(src))%len(src)]
+			if e.Marker || si == k {
+				return nil
+			}
+			r, err := cl.Call("PUT", path(k), nil, []s3c.KV{{K: "x-amz-copy-source", V: b + "/" + keyNames[si] + "?versionId=" + e.ID}}, nil)
+			if err != nil {
+				return fmt.Errorf("SETUP: transport: %v", err)
+			}
+			if !r.OK() || strings.Contains(string(r.Body), "<Error>") {
+				return fmt.Errorf("%s: CopyObject from version %s of %q (which GET returns) answers %v", where, e.ID, keyNames[si], r)
+			}
+			return push(k, entry{ID: r.Header.Get("x-amz-version-id"), Body: e.Body, Meta: e.Meta}, where)
+		case "badput":
+			// an upload that is refused (its Content-MD5 is not the body's) leaves the key's versions as they were
+			r, err := cl.Call("PUT", path(k), nil, []s3c.KV{{K: "Content-MD5", V: "1B2M2Y8AsgTpgAmY7PhCfg=="}, {K: "x-amz-meta-gen", V: "bad"}}, body(o))
+			if err != nil {
+				return fmt.Errorf("SETUP: transport: %v", err)
+			}
+			if r.OK() {
+				if len(body(o)) == 0 {
+					// the digest given is the one of the empty body: a valid upload
+					return push(k, entry{ID: r.Header.Get("x-amz-version-id"), Body: body(o), Meta: "bad"}, where)
+				}
+				return fmt.Errorf("%s: an upload whose Content-MD5 is not its body's was acknowledged", where)
+			}
+			return checkCurrent(k, where)
 		case "selfcopy":
 			// a copy of the current version onto its own key with replaced metadata: a write like any other
 			src := stacks[k]
@@ -512,7 +545,7 @@ func dump(stacks map[int][]entry) string {
 func opGen() *rapid.Generator[op] {
 	return rapid.Custom(func(t *rapid.T) op {
 		var o op
-		o.Kind = rapid.SampledFrom([]string{"put", "put", "put", "copy", "mpu", "delete", "delete", "delver", "delver", "get", "getver", "getver", "selfcopy", "list", "suspend", "enable"}).Draw(t, "kind")
+		o.Kind = rapid.SampledFrom([]string{"put", "put", "put", "copy", "mpu", "delete", "delete", "delver", "delver", "get", "getver", "getver", "selfcopy", "badput", "copyver", "list", "suspend", "enable"}).Draw(t, "kind")
 		o.Key = rapid.IntRange(0, 2).Draw(t, "key")
 		o.Seed = rapid.Uint64Range(1, 100000).Draw(t, "seed")
 		o.Size = rapid.IntRange(0, 300).Draw(t, "size")
